@@ -1,8 +1,14 @@
 /-
 C13 — validators are never punished for doing what the chain asked.
-Part A (bad-signature evidence) is proved on the bridge model (`Model/Bridge.lean`): every
-checkpoint the chain ever published for signing is archived for ever, and evidence can only jail
-for a checkpoint that is not archived. Part B (prune-time jailing) is `Model/Prune` below.
+
+Part A (bad-signature evidence), on the bridge model (`Model/Bridge.lean`).  "Issued" is defined from the
+executable state: a checkpoint is issued when it is the signing bytes (`Batch.ckpt`) of a batch that is
+open in some state of the history.  Every such checkpoint is archived at once and for ever, evidence can
+only jail for a checkpoint that is not archived, and the jailed validator is the one that *registered*
+the key the signature recovers to (`St.keys`, written by `registerKey`).
+
+Part B (prune-time jailing): `pruneJail` (the decision of `jailValidatorsWhichMissedAttestation`) and a
+small queue machine (`PSt`: messages with their evidence, a jailed set; ops: put / add evidence / prune).
 -/
 import PalomaModel.Props.C01
 import PalomaModel.Gen.Atomicity
@@ -11,294 +17,293 @@ import PalomaModel.Model.Libcons
 namespace Paloma.Bridge
 open List
 
-/-! ## helper lemmas -/
-section Lemmas
-
-/-- a step only ever *prepends the same entries* to `archive` and `issued` -/
-def Ext (s s' : St) : Prop := ∃ l, s'.archive = l ++ s.archive ∧ s'.issued = l ++ s.issued
-
-theorem Ext.refl (s : St) : Ext s s := ⟨[], rfl, rfl⟩
-theorem Ext.trans {a b c : St} (h1 : Ext a b) (h2 : Ext b c) : Ext a c := by
-  obtain ⟨l1, ha1, hi1⟩ := h1
-  obtain ⟨l2, ha2, hi2⟩ := h2
-  exact ⟨l2 ++ l1, by rw [ha2, ha1, List.append_assoc], by rw [hi2, hi1, List.append_assoc]⟩
-
-theorem send_ext (s : St) (f : Fault) (u tok amt h : Nat) : Ext s (send s f u tok amt h).1 := by
-  unfold send
-  split
-  · exact Ext.refl s
-  · split
-    · exact Ext.refl s
-    · simp only
-      split
-      · exact Ext.refl s
-      · split
-        · exact Ext.refl s
-        · split
-          · exact Ext.refl s
-          · split
-            · exact Ext.refl s
-            · split
-              · exact Ext.refl s
-              · exact ⟨[], rfl, rfl⟩
-
-theorem cancel_ext (s : St) (f : Fault) (u id : Nat) : Ext s (cancel s f u id).1 := by
-  unfold cancel
-  split
-  · exact Ext.refl s
-  · split
-    · exact Ext.refl s
-    · split
-      · exact Ext.refl s
-      · simp only
-        split
-        · exact Ext.refl s
-        · split
-          · exact Ext.refl s
-          · exact ⟨[], rfl, rfl⟩
-
-theorem buildOne_ext (s : St) (f : Fault) (tok time : Nat) : Ext s (buildOne s f tok time).1 := by
-  unfold buildOne
-  simp only
-  split
-  · exact Ext.refl s
-  · split
-    · exact Ext.refl s
-    · split
-      · exact Ext.refl s
-      · split
-        · exact Ext.refl s
-        · exact ⟨[(tok, s.lastBatch + 1, 0, 0)], rfl, rfl⟩
-
-theorem cancelBatch_ext (s : St) (f : Fault) (tok nonce : Nat) : Ext s (cancelBatch s f tok nonce).1 := by
-  unfold cancelBatch
-  split
-  · exact Ext.refl s
-  · simp only
-    split
-    · exact Ext.refl s
-    · exact ⟨[], rfl, rfl⟩
-
-theorem execBatch_ext (s : St) (f : Fault) (tok nonce h : Nat) : Ext s (execBatch s f tok nonce h).1 := by
-  unfold execBatch
-  split
-  · exact Ext.refl s
-  · split
-    · exact Ext.refl s
-    · simp only
-      split
-      · exact Ext.refl s
-      · split
-        · exact Ext.refl s
-        · exact ⟨[], rfl, rfl⟩
-
-theorem deposit_ext (s : St) (f : Fault) (tok amt : Nat) (r : Option Nat) (k : Bool) :
-    Ext s (deposit s f tok amt r k).1 := by
-  unfold deposit depositToPool
-  split
-  · exact Ext.refl s
-  · split
-    · exact Ext.refl s
-    · split
-      · split
-        · exact Ext.refl s
-        · exact ⟨[], rfl, rfl⟩
-      · split
-        · split
-          · exact Ext.refl s
-          · exact ⟨[], rfl, rfl⟩
-        · exact ⟨[], rfl, rfl⟩
-
-theorem setEstimate_ext (s : St) (f : Fault) (tok nonce est : Nat) : Ext s (setEstimate s f tok nonce est).1 := by
-  unfold setEstimate
-  split
-  · exact Ext.refl s
-  · split
-    · exact Ext.refl s
-    · simp only
-      split
-      · exact Ext.refl s
-      · exact ⟨[(tok, nonce, est, 0)], rfl, rfl⟩
-
-theorem createBatches_ext (time : Nat) (toks : List Nat) : ∀ (s : St) (f : Fault), Ext s (createBatches s f time toks).1 := by
-  induction toks with
-  | nil => intro s f; exact Ext.refl s
-  | cons tok rest ih =>
-    intro s f
-    unfold createBatches
-    simp only
-    split
-    · exact buildOne_ext s f tok time
-    · exact (buildOne_ext s f tok time).trans (ih _ _)
-
-theorem tally_ext (fuel : Nat) : ∀ (s : St) (f : Fault), Ext s (tally s f fuel).1 := by
-  induction fuel with
-  | zero => intro s f; exact Ext.refl s
-  | succ n ih =>
-    intro s f
-    unfold tally
-    split
-    · exact Ext.refl s
-    · rename_i m c _
-      simp only
-      have h0 : Ext s { s with lastObserved := m } := ⟨[], rfl, rfl⟩
-      have h1 : Ext { s with lastObserved := m } (applyClaim { s with lastObserved := m } f c).1 := by
-        cases c with
-        | executed tok nonce h => exact execBatch_ext _ f tok nonce h
-        | deposit tok amt r k => exact deposit_ext _ f tok amt r k
-      split
-      · exact h0.trans h1
-      · exact (h0.trans h1).trans (ih _ _)
-
-theorem applyEstimates_ext (ests : List (Nat × Nat × Nat)) :
-    ∀ (s : St) (f : Fault), Ext s (applyEstimates s f ests).1 := by
-  induction ests with
-  | nil => intro s f; exact Ext.refl s
-  | cons e rest ih =>
-    intro s f
-    obtain ⟨tok, nonce, est⟩ := e
-    unfold applyEstimates
-    simp only
-    exact (setEstimate_ext s f tok nonce est).trans (ih _ _)
-
-theorem timeouts_ext (now : Nat) (bs : List Batch) : ∀ (s : St) (f : Fault), Ext s (timeouts s f now bs).1 := by
-  induction bs with
-  | nil => intro s f; exact Ext.refl s
-  | cons b rest ih =>
-    intro s f
-    unfold timeouts
-    split
-    · simp only
-      split
-      · exact cancelBatch_ext s f b.token b.nonce
-      · exact (cancelBatch_ext s f b.token b.nonce).trans (ih _ _)
-    · exact ih _ _
-
-theorem endBlock_ext (s : St) (f : Fault) (h now : Nat) (toks : List Nat) (ests : List (Nat × Nat × Nat)) :
-    Ext s (endBlock s f h now toks ests).1 := by
-  unfold endBlock
-  simp only
-  generalize hc : (if h % 50 == 0 then createBatches s f now toks else (s, f, [])) = r1
-  have h1 : Ext s r1.1 := by
-    rw [← hc]
-    split
-    · exact createBatches_ext now toks s f
-    · exact Ext.refl s
-  exact ((h1.trans (tally_ext _ _ _)).trans (applyEstimates_ext _ _ _)).trans (timeouts_ext _ _ _ _)
-
-theorem evidence_ext (s : St) (c : Nat × Nat × Nat × Nat) (sg : Option Nat) : Ext s (evidence s c sg).1 := by
-  unfold evidence
-  split
-  · exact Ext.refl s
-  · split
-    · exact Ext.refl s
-    · split
-      · exact Ext.refl s
-      · exact ⟨[], rfl, rfl⟩
-
-end Lemmas
-
-/-- bridge operations plus evidence submission by anybody -/
+/-- bridge operations, evidence submission by anybody, key (re-)registration by a validator -/
 inductive Op13 where
   | bridge (op : Op)
-  | evidence (c : Nat × Nat × Nat × Nat) (signer : Option Nat)
+  | evidence (c : Ckpt) (key : Nat)
+  | register (v key : Nat)
 
 def apply13 (s : St) : Op13 → St
   | .bridge op => apply s op
-  | .evidence c sg => (evidence s c sg).1
+  | .evidence c key => (evidence s c key).1
+  | .register v key => (registerKey s v key).1
 
 def run13 (ops : List Op13) : St := ops.foldl apply13 St.init
 
-section Lemmas2
+/-! ## helper lemmas -/
+section Lemmas
 
-theorem apply13_ext (s : St) (op : Op13) : Ext s (apply13 s op) := by
-  cases op with
-  | evidence c sg => exact evidence_ext s c sg
-  | bridge op =>
-    cases op with
-    | send f u tok amt h => exact send_ext s f u tok amt h
-    | cancel f u id => exact cancel_ext s f u id
-    | build f tok time => exact buildOne_ext s f tok time
-    | fund u tok amt => exact ⟨[], rfl, rfl⟩
-    | setTax tok c => exact ⟨[], rfl, rfl⟩
-    | setLimit tok c => exact ⟨[], rfl, rfl⟩
-    | claim n c =>
-      simp only [apply13, apply, addClaim]
-      split
-      · exact Ext.refl s
-      · exact ⟨[], rfl, rfl⟩
-    | endBlock f h now toks ests => exact endBlock_ext s f h now toks ests
+theorem run13_append (a b : List Op13) : run13 (a ++ b) = b.foldl apply13 (run13 a) := by
+  unfold run13; rw [List.foldl_append]
 
-theorem foldl_ext (ops : List Op13) : ∀ s, Ext s (ops.foldl apply13 s) := by
+theorem run13_snoc (a : List Op13) (op : Op13) : run13 (a ++ [op]) = apply13 (run13 a) op := by
+  rw [run13_append]; rfl
+
+/-- lifting a step relation to histories with evidence and registration -/
+theorem StepRel.foldl13 {R : St → St → Prop} (hR : StepRel R)
+    (hev : ∀ s c key, R s (evidence s c key).1) (hreg : ∀ s v key, R s (registerKey s v key).1)
+    (ops : List Op13) : ∀ s, R s (ops.foldl apply13 s) := by
   induction ops with
-  | nil => intro s; exact Ext.refl s
-  | cons op rest ih => intro s; exact (apply13_ext s op).trans (ih _)
+  | nil => intro s; exact hR.refl s
+  | cons op rest ih =>
+    intro s
+    refine hR.trans ?_ (ih _)
+    cases op with
+    | bridge op => exact hR.apply s op
+    | evidence c key => exact hev s c key
+    | register v key => exact hreg s v key
 
-end Lemmas2
-
-/-! ## Property theorems (C13) -/
-
-/-- **issued_subset_archive.** Every checkpoint the chain ever published for signing — at batch
-build *and* at gas-estimate re-issue — is in the archive, in every reachable state. -/
-theorem issued_subset_archive (ops : List Op13) : ∀ c ∈ (run13 ops).issued, c ∈ (run13 ops).archive := by
-  obtain ⟨l, ha, hi⟩ := foldl_ext ops St.init
-  intro c hc
-  unfold run13 at *
-  rw [hi] at hc
-  rw [ha]
-  simpa [St.init] using hc
-
-/-- **archive_written_where_checkpoints_are_issued.** In the current source (regenerated table) the
-two functions that store a batch's signing bytes — the build and the gas-estimate re-issue — both
-archive the checkpoint, and nothing but the archive's own setter / getter touches its store key
-(so an archived checkpoint is never deleted). -/
-theorem archive_written_where_checkpoints_are_issued :
-    (Paloma.Gen.Atomicity.archiveSetters.contains "x/skyway/keeper.Keeper.BuildOutgoingTXBatch" &&
-     Paloma.Gen.Atomicity.archiveSetters.contains "x/skyway/keeper.Keeper.UpdateBatchGasEstimate" &&
-     Paloma.Gen.Atomicity.archiveKeyUsers ==
-       ["x/skyway/keeper.Keeper.GetPastEthSignatureCheckpoint", "x/skyway/keeper.Keeper.SetPastEthSignatureCheckpoint"]) = true := by decide
-
-/-- **evidence_jails_only_unissued.** Evidence changes the jailed set only for a checkpoint that
-is not archived, hence (previous theorem) one the chain never issued. -/
-theorem evidence_jails_only_unissued (ops : List Op13) (c : Nat × Nat × Nat × Nat) (sg : Option Nat)
-    (h : (evidence (run13 ops) c sg).1.jailed ≠ (run13 ops).jailed) : c ∉ (run13 ops).issued := by
-  intro hc
-  have := issued_subset_archive ops c hc
-  unfold evidence at h
-  simp [this] at h
-
-/-- **genuine_confirmation_safe.** Once a checkpoint has been issued, evidence built from a
-signature over it is refused at every later time, whatever happened in between (re-estimation,
-cancellation, execution of the batch, other evidence). -/
-theorem genuine_confirmation_safe (before after : List Op13) (c : Nat × Nat × Nat × Nat) (sg : Option Nat)
-    (hc : c ∈ (run13 before).issued) :
-    evidence (run13 (before ++ after)) c sg = (run13 (before ++ after), .rejected) := by
-  have harch := issued_subset_archive before c hc
-  have hrun : run13 (before ++ after) = after.foldl apply13 (run13 before) := by
-    unfold run13; rw [List.foldl_append]
-  obtain ⟨l, ha, _⟩ := foldl_ext after (run13 before)
-  have : c ∈ (run13 (before ++ after)).archive := by
-    rw [hrun, ha]; exact List.mem_append_right _ harch
+theorem evidence_cases (s : St) (c : Ckpt) (key : Nat) :
+    ((evidence s c key).1 = s) ∨
+    (c ∉ s.archive ∧ ∃ v, lookupKey s.keys key = some v ∧ v ∉ s.jailed ∧
+      (evidence s c key).1 = { s with jailed := v :: s.jailed }) := by
   unfold evidence
-  simp [this]
+  split
+  · exact Or.inl rfl
+  · rename_i harch
+    split
+    · exact Or.inl rfl
+    · rename_i v hv
+      split
+      · exact Or.inl rfl
+      · rename_i hj
+        exact Or.inr ⟨by simpa using harch, v, hv, by simpa using hj, rfl⟩
 
-/-! ### non-vacuity: build, elect an estimate, replay the post-election confirmation as evidence -/
-def demo13 : List Op13 :=
-  [ .bridge (.fund 1 1 100), .bridge (.send Fault.none 1 1 10 5), .bridge (.build Fault.none 1 1000),
-    .bridge (.endBlock Fault.none 7 1001 [1] [(1, 1, 21000)]) ]
+theorem registerKey_cases (s : St) (v key : Nat) :
+    ((registerKey s v key).1 = s) ∨
+    ((s.keys.any (fun p => p.1 != v && p.2 == key)) = false ∧
+      (registerKey s v key).1 = { s with keys := setKey s.keys v key }) := by
+  unfold registerKey
+  split
+  · exact Or.inl rfl
+  · split
+    · exact Or.inl rfl
+    · rename_i h
+      exact Or.inr ⟨Bool.eq_false_iff.mpr h, rfl⟩
 
-example : (run13 demo13).issued = [(1, 1, 21000, 0), (1, 1, 0, 0)] ∧
-    (evidence (run13 demo13) (1, 1, 21000, 0) (some 3)).2 = .rejected ∧
-    (evidence (run13 demo13) (1, 1, 21000, 1) (some 3)).1.jailed = [3] := by decide
+/-! ### the archive only grows, and holds the checkpoint of every open batch -/
+
+def ArchSub (s s' : St) : Prop := ∀ c ∈ s.archive, c ∈ s'.archive
+
+theorem archSub_stepRel : StepRel ArchSub where
+  refl := fun _ _ h => h
+  trans := fun h1 h2 c hc => h2 c (h1 c hc)
+  build := by
+    intro s f tok time c hc
+    rcases buildOne_cases s f tok time with ⟨_, h⟩ | ⟨_, _, h⟩ <;> rw [h]
+    · exact hc
+    · exact List.mem_cons_of_mem _ hc
+  cancelBatch := by
+    intro s f tok nonce c hc
+    rcases cancelBatch_cases s f tok nonce with ⟨_, h⟩ | ⟨_, b, _, h⟩ <;> rw [h] <;> exact hc
+  setEstimate := by
+    intro s f tok nonce est c hc
+    rcases setEstimate_cases s f tok nonce est with ⟨_, h⟩ | ⟨_, b, _, _, h⟩ <;> rw [h]
+    · exact hc
+    · exact List.mem_cons_of_mem _ hc
+  observe := by
+    intro s f n c _ _ x hx
+    rw [observe_state]
+    rcases applyClaim_cases { s with lastObserved := n } f c with
+      ⟨_, h⟩ | ⟨_, ⟨_, _, _, b, _, _, _, _, _, h⟩ | ⟨_, _, _, _, _, _, h⟩⟩ <;> simp only [h] <;> exact hx
+  send := by
+    intro s f u tok amt h c hc
+    rcases send_cases s f u tok amt h with ⟨_, h1⟩ | ⟨_, usage', _, _, _, _, _, h1⟩ <;> rw [h1] <;> exact hc
+  cancel := by
+    intro s f u id c hc
+    rcases cancel_cases s f u id with ⟨_, h1⟩ | ⟨_, t, _, _, h1⟩ <;> rw [h1] <;> exact hc
+  fund := fun _ _ _ _ _ hc => hc
+  setTax := by intro s tok cfg c hc; rw [(setTax_other s tok cfg).2.2.1]; exact hc
+  setLimit := fun _ _ _ _ hc => hc
+  addClaim := by intro s n cl c hc; rw [(addClaim_other s n cl).2.2.1]; exact hc
+
+theorem archSub_foldl13 (ops : List Op13) (s : St) : ArchSub s (ops.foldl apply13 s) := by
+  refine StepRel.foldl13 archSub_stepRel ?_ ?_ ops s
+  · intro s c key x hx
+    rcases evidence_cases s c key with h | ⟨_, v, _, _, h⟩ <;> rw [h] <;> exact hx
+  · intro s v key x hx
+    rcases registerKey_cases s v key with h | ⟨_, h⟩ <;> rw [h] <;> exact hx
+
+/-- every open batch's current signing bytes are archived -/
+def OpenArchived (s : St) : Prop := ∀ b ∈ s.batches, b.ckpt ∈ s.archive
+
+theorem openArchived_congr {s s' : St} (h : OpenArchived s) (h1 : s'.batches = s.batches)
+    (h2 : s'.archive = s.archive) : OpenArchived s' := by
+  unfold OpenArchived; rw [h1, h2]; exact h
+
+theorem openArchived_stepRel : StepRel (Preserves OpenArchived) where
+  refl := fun _ h => h
+  trans := fun h1 h2 h => h2 (h1 h)
+  build := by
+    intro s f tok time hp
+    rcases buildOne_cases s f tok time with ⟨_, h⟩ | ⟨_, _, h⟩ <;> rw [h]
+    · exact hp
+    · intro b hb
+      simp only [buildOk, List.mem_cons] at hb ⊢
+      rcases hb with rfl | hb
+      · exact Or.inl rfl
+      · exact Or.inr (hp b hb)
+  cancelBatch := by
+    intro s f tok nonce hp
+    rcases cancelBatch_cases s f tok nonce with ⟨_, h⟩ | ⟨_, b, _, h⟩ <;> rw [h]
+    · exact hp
+    · intro b' hb'
+      exact hp b' ((removeBatch_sublist _ _ _).subset hb')
+  setEstimate := by
+    intro s f tok nonce est hp
+    rcases setEstimate_cases s f tok nonce est with ⟨_, h⟩ | ⟨_, b, _, _, h⟩ <;> rw [h]
+    · exact hp
+    · intro b' hb'
+      simp only [estimateOk, List.mem_map] at hb'
+      obtain ⟨x, hx, rfl⟩ := hb'
+      simp only [estimateOk, List.mem_cons]
+      split
+      · rename_i hk
+        simp only [Bool.and_eq_true, beq_iff_eq] at hk
+        left
+        simp [Batch.ckpt, hk.1, hk.2]
+      · exact Or.inr (hp x hx)
+  observe := by
+    intro s f n c _ _ hp
+    rw [observe_state]
+    rcases applyClaim_cases { s with lastObserved := n } f c with
+      ⟨_, h⟩ | ⟨_, ⟨_, _, _, b, _, _, _, _, _, h⟩ | ⟨_, _, _, _, _, _, h⟩⟩ <;> simp only [h]
+    · exact hp
+    · intro b' hb'
+      exact hp b' ((removeBatch_sublist _ _ _).subset hb')
+    · exact hp
+  send := by
+    intro s f u tok amt h hp
+    rcases send_cases s f u tok amt h with ⟨_, h1⟩ | ⟨_, usage', _, _, _, _, _, h1⟩ <;> rw [h1] <;> exact hp
+  cancel := by
+    intro s f u id hp
+    rcases cancel_cases s f u id with ⟨_, h1⟩ | ⟨_, t, _, _, h1⟩ <;> rw [h1] <;> exact hp
+  fund := fun _ _ _ _ hp => hp
+  setTax := fun s tok cfg hp => openArchived_congr hp (setTax_other s tok cfg).2.1 (setTax_other s tok cfg).2.2.1
+  setLimit := fun _ _ _ hp => hp
+  addClaim := fun s n cl hp => openArchived_congr hp (addClaim_other s n cl).2.1 (addClaim_other s n cl).2.2.1
+
+theorem openArchived_run13 (ops : List Op13) : OpenArchived (run13 ops) := by
+  refine StepRel.foldl13 openArchived_stepRel ?_ ?_ ops St.init (by intro b hb; simp [St.init] at hb)
+  · intro s c key hp
+    rcases evidence_cases s c key with h | ⟨_, v, _, _, h⟩ <;> rw [h] <;> exact hp
+  · intro s v key hp
+    rcases registerKey_cases s v key with h | ⟨_, h⟩ <;> rw [h] <;> exact hp
+
+/-! ### bridge operations never touch the jailed set or the key registry -/
+
+theorem frame_jailed : StepRel (fun s s' => s'.jailed = s.jailed) :=
+  StepRel.ofFrame (·.jailed)
+    (InnerRel.ofFrame (·.jailed) (fun _ _ _ => rfl) (fun _ _ => rfl) (fun _ _ _ _ => rfl) (fun _ _ => rfl)
+      (fun _ _ _ _ => rfl) (fun _ _ => rfl) (fun _ _ => rfl))
+    (fun _ _ _ _ _ => rfl) (fun _ _ => rfl) (fun _ _ _ _ => rfl)
+    (fun s tok c => (setTax_other s tok c).2.2.2.2.1) (fun _ _ _ => rfl) (fun s n c => (addClaim_other s n c).2.2.2.2.1)
+
+theorem frame_keys : StepRel (fun s s' => s'.keys = s.keys) :=
+  StepRel.ofFrame (·.keys)
+    (InnerRel.ofFrame (·.keys) (fun _ _ _ => rfl) (fun _ _ => rfl) (fun _ _ _ _ => rfl) (fun _ _ => rfl)
+      (fun _ _ _ _ => rfl) (fun _ _ => rfl) (fun _ _ => rfl))
+    (fun _ _ _ _ _ => rfl) (fun _ _ => rfl) (fun _ _ _ _ => rfl)
+    (fun s tok c => (setTax_other s tok c).2.2.2.1) (fun _ _ _ => rfl) (fun s n c => (addClaim_other s n c).2.2.2.1)
+
+/-- the jailed set is written by an evidence op only: the looked-up holder of the signing key is
+    prepended, and only when the checkpoint is not archived -/
+theorem apply13_jailed (s : St) (op : Op13) :
+    (apply13 s op).jailed = s.jailed ∨
+    ∃ c key v, op = .evidence c key ∧ c ∉ s.archive ∧ lookupKey s.keys key = some v ∧
+      (apply13 s op).jailed = v :: s.jailed := by
+  cases op with
+  | bridge op => exact Or.inl (frame_jailed.apply s op)
+  | evidence c key =>
+    rcases evidence_cases s c key with h | ⟨hc, v, hv, _, h⟩
+    · left; simp only [apply13, h]
+    · right; exact ⟨c, key, v, rfl, hc, hv, by simp only [apply13, h]⟩
+  | register v key =>
+    left
+    rcases registerKey_cases s v key with h | ⟨_, h⟩ <;> simp only [apply13, h]
+
+/-! ### the key registry: a key has at most one holder -/
+
+theorem lookupKey_some {keys : List (Nat × Nat)} {key v : Nat} (h : lookupKey keys key = some v) :
+    (v, key) ∈ keys := by
+  unfold lookupKey at h
+  cases hf : keys.find? (fun p => p.2 == key) with
+  | none => simp [hf] at h
+  | some p =>
+    simp only [hf, Option.map_some, Option.some.injEq] at h
+    have hm := List.mem_of_find?_eq_some hf
+    have hp : p.2 = key := by simpa using List.find?_some hf
+    obtain ⟨a, b⟩ := p
+    simp only at h hp
+    subst h; subst hp
+    exact hm
+
+theorem mem_setKey {keys : List (Nat × Nat)} {v k : Nat} {x : Nat × Nat} (h : x ∈ setKey keys v k) :
+    x = (v, k) ∨ x ∈ keys := by
+  induction keys with
+  | nil => simp only [setKey, List.mem_singleton] at h; exact Or.inl h
+  | cons p ps ih =>
+    simp only [setKey] at h
+    split at h
+    · simp only [List.mem_cons] at h ⊢
+      rcases h with h | h
+      · exact Or.inl h
+      · exact Or.inr (Or.inr h)
+    · simp only [List.mem_cons] at h ⊢
+      rcases h with h | h
+      · exact Or.inr (Or.inl h)
+      · rcases ih h with h' | h'
+        · exact Or.inl h'
+        · exact Or.inr (Or.inr h')
+
+/-- a remote key determines its holder -/
+def KeysUnique (s : St) : Prop := ∀ p ∈ s.keys, ∀ q ∈ s.keys, p.2 = q.2 → p.1 = q.1
+
+theorem keysUnique_register (s : St) (v key : Nat) (h : KeysUnique s) : KeysUnique (registerKey s v key).1 := by
+  rcases registerKey_cases s v key with h1 | ⟨hany, h1⟩ <;> rw [h1]
+  · exact h
+  · have hno : ∀ q ∈ s.keys, q.2 = key → q.1 = v := by
+      intro q hq hk
+      have := List.any_eq_false.mp hany q hq
+      simp only [Bool.and_eq_true, bne_iff_ne, ne_eq, beq_iff_eq, not_and] at this
+      exact Classical.byContradiction fun hne => this hne hk
+    intro p hp q hq hpq
+    simp only at hp hq
+    rcases mem_setKey hp with rfl | hp' <;> rcases mem_setKey hq with rfl | hq'
+    · rfl
+    · exact (hno q hq' hpq.symm).symm
+    · exact hno p hp' hpq
+    · exact h p hp' q hq' hpq
+
+theorem keysUnique_run13 (ops : List Op13) : KeysUnique (run13 ops) := by
+  unfold run13
+  suffices h : ∀ s, KeysUnique s → KeysUnique (ops.foldl apply13 s) from
+    h _ (by intro p hp; simp [St.init] at hp)
+  induction ops with
+  | nil => intro s h; exact h
+  | cons op rest ih =>
+    intro s h
+    apply ih
+    cases op with
+    | bridge op =>
+      have := frame_keys.apply s op
+      unfold KeysUnique; simp only [apply13]; rw [this]; exact h
+    | evidence c key =>
+      rcases evidence_cases s c key with h1 | ⟨_, v, _, _, h1⟩ <;>
+        (unfold KeysUnique; simp only [apply13]; rw [h1]; exact h)
+    | register v key => exact keysUnique_register s v key h
+
+end Lemmas
 
 end Paloma.Bridge
 
-/-! ## Part B: prune-time jailing (`jailValidatorsWhichMissedAttestation`) -/
+/-! ## Part B definitions and helper lemmas: prune-time jailing -/
 namespace Paloma.Libcons
 
-/-- who gets jailed when a contested / undelivered message is pruned: nobody if no snapshot
-validator supplied evidence or fewer than 10 % of the shares did; otherwise the snapshot
-validators without evidence. `evs` are the validators that supplied evidence. -/
+/-- who gets jailed when a contested / undelivered message is pruned
+(`jailValidatorsWhichMissedAttestation`): nobody if no snapshot validator supplied evidence or fewer
+than 10 % of the shares did; otherwise the snapshot validators without evidence. `evs` are the
+validators that supplied evidence. -/
 def pruneJail (s : Snapshot) (evs : List Nat) : List Nat :=
   match (tally s evs).sum with
   | none => []
@@ -307,49 +312,21 @@ def pruneJail (s : Snapshot) (evs : List Nat) : List Nat :=
     else if s.vals.isEmpty || s.total == 0 then []
     else (s.vals.map (·.1)).filter (fun a => !evs.contains a)
 
-/-- **prune_spares_attesters.** A validator that supplied evidence is never jailed at prune time. -/
-theorem prune_spares_attesters (s : Snapshot) (evs : List Nat) (v : Nat) (hv : v ∈ evs) :
-    v ∉ pruneJail s evs := by
-  unfold pruneJail
-  split
-  · simp
-  · split
-    · simp
-    · split
-      · simp
-      · intro hm
-        have := (List.mem_filter.mp hm).2
-        simp [hv] at this
-
-/-- **prune_floor.** Nobody is jailed when fewer than 10 % of the snapshot shares attested. -/
-theorem prune_floor (s : Snapshot) (evs : List Nat)
-    (h : 10 * (foundShares s evs).sum < s.total) : pruneJail s evs = [] := by
-  unfold pruneJail tally
-  simp only
-  split
-  · rfl
-  · rename_i votes hs
-    split at hs
-    · cases hs
-    · injection hs with hs
-      subst hs
-      simp [h]
-
-/-- only snapshot validators are ever jailed at prune time -/
-theorem prune_only_snapshot (s : Snapshot) (evs : List Nat) (v : Nat) (hv : v ∈ pruneJail s evs) :
-    v ∈ s.vals.map (·.1) := by
-  unfold pruneJail at hv
-  split at hv
-  · simp at hv
-  · split at hv
-    · simp at hv
-    · split at hv
-      · simp at hv
-      · exact (List.mem_filter.mp hv).1
-
 /-- the evidence a message holds after the accepted submissions `subs` (validator, proof), oldest
 first, each validator any number of times: `QueuedSignedMessage.AddEvidence` folded over the history -/
 def evidenceAfter (subs : List Evidence) : List Evidence := subs.foldl addEvidence []
+
+/-- `PruneJob` on a message holding the evidence `evs`: nobody is jailed for a message without a
+delivery / error report (`punishValidatorForMissingRelay`) nor when the evidence does reach consensus
+(`jailValidatorsWhichMissedAttestation` bails out); otherwise `pruneJail` over the suppliers.
+(`Driver.Queue.stepPrune` prints exactly this for `evs = evidenceAfter submissions`.) -/
+def pruneOutcome (delivered : Bool) (snap : Snapshot) (evs : List Evidence) : List Nat :=
+  if !delivered then []
+  else match verifyEvidence snap evs with
+    | .winnerIn _ => []
+    | .notAchieved => pruneJail snap (evs.map (·.1))
+
+section Lemmas
 
 theorem addEvidence_keeps (l : List Evidence) (e : Evidence) (v : Nat) (hv : v ∈ l.map (·.1)) :
     v ∈ (addEvidence l e).map (·.1) := by
@@ -391,6 +368,521 @@ theorem foldl_addEvidence_keeps (subs : List Evidence) : ∀ (init : List Eviden
       · exact Or.inl (by rw [h]; exact addEvidence_adds init e)
       · exact Or.inr h
 
+/-- `AddEvidence` only ever holds validators that were there or the submitter -/
+theorem addEvidence_mem (l : List Evidence) (e : Evidence) (v : Nat) (hv : v ∈ (addEvidence l e).map (·.1)) :
+    v ∈ l.map (·.1) ∨ v = e.1 := by
+  induction l with
+  | nil => simp only [addEvidence, List.map_cons, List.map_nil, List.mem_singleton] at hv; exact Or.inr hv
+  | cons x xs ih =>
+    unfold addEvidence at hv
+    split at hv
+    · exact Or.inl (by simpa using hv)
+    · simp only [List.map_cons, List.mem_cons] at hv ⊢
+      rcases hv with h | h
+      · exact Or.inl (Or.inl h)
+      · rcases ih h with h' | h'
+        · exact Or.inl (Or.inr h')
+        · exact Or.inr h'
+
+/-- a message never holds two proofs of one validator -/
+theorem addEvidence_nodup (l : List Evidence) (e : Evidence) (h : (l.map (·.1)).Nodup) :
+    ((addEvidence l e).map (·.1)).Nodup := by
+  induction l with
+  | nil => simp [addEvidence]
+  | cons x xs ih =>
+    have hc := List.nodup_cons.mp (by simpa only [List.map_cons] using h)
+    unfold addEvidence
+    split
+    · simpa only [List.map_cons] using h
+    · rename_i hne
+      simp only [List.map_cons]
+      refine List.nodup_cons.mpr ⟨?_, ih hc.2⟩
+      intro hm
+      rcases addEvidence_mem xs e x.1 hm with h' | h'
+      · exact hc.1 h'
+      · exact hne (by simp [h'])
+
+theorem foldl_addEvidence_nodup (subs : List Evidence) : ∀ (init : List Evidence),
+    (init.map (·.1)).Nodup → ((subs.foldl addEvidence init).map (·.1)).Nodup := by
+  induction subs with
+  | nil => intro init h; exact h
+  | cons e es ih => intro init h; exact ih _ (addEvidence_nodup init e h)
+
+/-- shares of the snapshot entries whose validator is in `evs` -/
+def attestedShares (s : Snapshot) (evs : List Nat) : Nat :=
+  ((s.vals.filter (fun p => evs.contains p.1)).map (·.2)).sum
+
+theorem lookup_of_nodup {vs : List (Nat × Nat)} (hnd : (vs.map (·.1)).Nodup) {p : Nat × Nat} (hp : p ∈ vs) :
+    lookup vs p.1 = some p.2 := by
+  induction vs with
+  | nil => cases hp
+  | cons x xs ih =>
+    have hc := List.nodup_cons.mp (by simpa only [List.map_cons] using hnd)
+    unfold lookup
+    rcases List.mem_cons.mp hp with rfl | hm
+    · simp
+    · have hne : x.1 ≠ p.1 := fun e => hc.1 (List.mem_map.mpr ⟨p, hm, e.symm⟩)
+      have : (x.1 == p.1) = false := by simpa using hne
+      simp only [List.find?_cons, this]
+      exact ih hc.2 hm
+
+theorem lookup_none_of_not_mem {vs : List (Nat × Nat)} {a : Nat} (h : a ∉ vs.map (·.1)) : lookup vs a = none := by
+  unfold lookup
+  rw [List.find?_eq_none.mpr]
+  · rfl
+  · intro x hx
+    have : x.1 ≠ a := fun e => h (List.mem_map.mpr ⟨x, hx, e⟩)
+    simpa using this
+
+/-- shares of the entries of `l` whose validator is in `evs` -/
+def shareSum (evs : List Nat) (l : List (Nat × Nat)) : Nat :=
+  ((l.filter (fun q => evs.contains q.1)).map (·.2)).sum
+
+theorem shareSum_nil (evs : List Nat) : shareSum evs [] = 0 := rfl
+
+theorem shareSum_cons (evs : List Nat) (x : Nat × Nat) (xs : List (Nat × Nat)) :
+    shareSum evs (x :: xs) = (if x.1 ∈ evs then x.2 else 0) + shareSum evs xs := by
+  unfold shareSum
+  by_cases h : x.1 ∈ evs
+  · have : evs.contains x.1 = true := by simpa using h
+    simp [List.filter_cons, this, h]
+  · have : evs.contains x.1 = false := by simpa using h
+    simp [List.filter_cons, this, h]
+
+theorem lookup_cons (x : Nat × Nat) (xs : List (Nat × Nat)) (a : Nat) :
+    lookup (x :: xs) a = if x.1 = a then some x.2 else lookup xs a := by
+  unfold lookup
+  by_cases h : x.1 = a
+  · simp [h]
+  · have : (x.1 == a) = false := by simpa using h
+    simp [List.find?_cons, this, h]
+
+theorem shareSum_split (a : Nat) (as : List Nat) (ha : a ∉ as) : ∀ (l : List (Nat × Nat)), (l.map (·.1)).Nodup →
+    shareSum (a :: as) l = (lookup l a).getD 0 + shareSum as l := by
+  intro l
+  induction l with
+  | nil => intro _; simp [shareSum_nil, lookup]
+  | cons x xs ih =>
+    intro hx
+    have hxc := List.nodup_cons.mp (by simpa only [List.map_cons] using hx)
+    have ih' := ih hxc.2
+    rw [shareSum_cons, shareSum_cons, lookup_cons, ih']
+    by_cases hxa : x.1 = a
+    · have hnot : a ∉ xs.map (·.1) := by rw [← hxa]; exact hxc.1
+      have hnas : x.1 ∉ as := by rw [hxa]; exact ha
+      rw [lookup_none_of_not_mem hnot]
+      simp [hxa, ha]
+    · have hmem : x.1 ∈ a :: as ↔ x.1 ∈ as := by simp [hxa]
+      by_cases hin : x.1 ∈ as
+      · simp only [hmem.mpr hin, hin, if_true, hxa, if_false]; omega
+      · have : ¬ x.1 ∈ a :: as := fun h => hin (hmem.mp h)
+        simp only [this, hin, if_false, hxa]; omega
+
+/-- over distinct suppliers and a snapshot that lists every validator once, the votes counted by
+    `VerifyEvidence` are exactly the shares of the snapshot validators that supplied evidence -/
+theorem foundShares_sum_eq (vs : List (Nat × Nat)) (t : Nat) (hnd : (vs.map (·.1)).Nodup) :
+    ∀ (evs : List Nat), evs.Nodup → (foundShares ⟨vs, t⟩ evs).sum = attestedShares ⟨vs, t⟩ evs := by
+  intro evs
+  induction evs with
+  | nil =>
+    intro _
+    simp only [foundShares, attestedShares, List.filterMap_nil, List.sum_nil, List.contains_nil]
+    rw [List.filter_eq_nil_iff.mpr (by simp)]
+    rfl
+  | cons a as ih =>
+    intro had
+    have hc := List.nodup_cons.mp had
+    have ih' := ih hc.2
+    have hs := shareSum_split a as hc.1 vs hnd
+    unfold shareSum at hs
+    unfold foundShares attestedShares at *
+    simp only [Snapshot.share?] at *
+    rw [hs, ← ih']
+    simp only [List.filterMap_cons]
+    cases hl : lookup vs a with
+    | none =>
+      have hl' : Snapshot.share? ⟨vs, t⟩ a = none := hl
+      simp [hl']
+    | some sh =>
+      have hl' : Snapshot.share? ⟨vs, t⟩ a = some sh := hl
+      simp [hl']
+
+end Lemmas
+
+/-! ### a small queue machine around `pruneOutcome`: messages with their evidence, a jailed set -/
+
+structure PSt where
+  /-- message id ↦ evidence held (`QueuedSignedMessage.Evidence`) -/
+  msgs : List (Nat × List Evidence)
+  jailed : List Nat
+
+def PSt.init : PSt := { msgs := [], jailed := [] }
+
+def PSt.evidenceOf (s : PSt) (id : Nat) : Option (List Evidence) := (s.msgs.find? (fun m => m.1 == id)).map (·.2)
+
+inductive POp where
+  /-- a message enters the queue (ids are allocated by the queue: an id in use is not reused) -/
+  | put (id : Nat)
+  /-- `MsgAddEvidence` by validator `e.1` with proof hash `e.2` -/
+  | evidence (id : Nat) (e : Evidence)
+  /-- `PruneJob`: `delivered` = the message carries public-access / error data, `snap` = the current snapshot -/
+  | prune (id : Nat) (delivered : Bool) (snap : Snapshot)
+
+def pstep (s : PSt) : POp → PSt
+  | .put id => if s.msgs.any (fun m => m.1 == id) then s else { s with msgs := s.msgs ++ [(id, [])] }
+  | .evidence id e => { s with msgs := s.msgs.map (fun m => if m.1 == id then (m.1, addEvidence m.2 e) else m) }
+  | .prune id delivered snap =>
+    match s.evidenceOf id with
+    | none => s
+    | some evs => { msgs := s.msgs.filter (fun m => !(m.1 == id)),
+                    jailed := pruneOutcome delivered snap evs ++ s.jailed }
+
+def prun (ops : List POp) : PSt := ops.foldl pstep PSt.init
+
+section Lemmas2
+
+theorem prun_snoc (a : List POp) (op : POp) : prun (a ++ [op]) = pstep (prun a) op := by
+  unfold prun; rw [List.foldl_append]; rfl
+
+/-- ids in the queue are distinct -/
+theorem pstep_ids_nodup (s : PSt) (op : POp) (h : (s.msgs.map (·.1)).Nodup) : ((pstep s op).msgs.map (·.1)).Nodup := by
+  cases op with
+  | put id =>
+    simp only [pstep]
+    split
+    · exact h
+    · rename_i hany
+      simp only [List.map_append, List.map_cons, List.map_nil]
+      refine List.nodup_append.mpr ⟨h, by simp, ?_⟩
+      intro a ha b hb
+      simp only [List.mem_singleton] at hb
+      subst hb
+      intro hab; subst hab
+      apply hany
+      rcases List.mem_map.mp ha with ⟨x, hx, rfl⟩
+      exact List.any_eq_true.mpr ⟨x, hx, by simp⟩
+  | evidence id e =>
+    simp only [pstep]
+    have : (s.msgs.map (fun m => if m.1 == id then (m.1, addEvidence m.2 e) else m)).map (·.1) = s.msgs.map (·.1) := by
+      rw [List.map_map]
+      apply List.map_congr_left
+      intro m _
+      simp only [Function.comp]
+      split <;> rfl
+    rw [this]; exact h
+  | prune id dl snap =>
+    simp only [pstep]
+    split
+    · exact h
+    · exact h.sublist ((List.filter_sublist).map _)
+
+theorem prun_ids_nodup (ops : List POp) : ((prun ops).msgs.map (·.1)).Nodup := by
+  unfold prun
+  suffices h : ∀ s : PSt, (s.msgs.map (·.1)).Nodup → ((ops.foldl pstep s).msgs.map (·.1)).Nodup from
+    h _ (by simp [PSt.init])
+  induction ops with
+  | nil => intro s h; exact h
+  | cons op rest ih => intro s h; exact ih _ (pstep_ids_nodup s op h)
+
+theorem find_of_nodup {β : Type} : ∀ (l : List (Nat × β)), (l.map (·.1)).Nodup → ∀ m ∈ l,
+    (l.find? (fun x => x.1 == m.1)).map (·.2) = some m.2 := by
+  intro l
+  induction l with
+  | nil => intro _ m hm; cases hm
+  | cons x xs ih =>
+    intro hnd m hm
+    have hc := List.nodup_cons.mp (by simpa only [List.map_cons] using hnd)
+    rcases List.mem_cons.mp hm with rfl | hm'
+    · simp
+    · have hne : x.1 ≠ m.1 := fun e => hc.1 (List.mem_map.mpr ⟨m, hm', e.symm⟩)
+      have : (x.1 == m.1) = false := by simpa using hne
+      simp only [List.find?_cons, this]
+      exact ih hc.2 m hm'
+
+theorem evidenceOf_of_mem {s : PSt} (hnd : (s.msgs.map (·.1)).Nodup) {m : Nat × List Evidence} (hm : m ∈ s.msgs) :
+    s.evidenceOf m.1 = some m.2 := find_of_nodup s.msgs hnd m hm
+
+theorem pstep_prune_some (s : PSt) (id : Nat) (dl : Bool) (snap : Snapshot) (evs : List Evidence)
+    (h : s.evidenceOf id = some evs) :
+    (pstep s (.prune id dl snap)).jailed = pruneOutcome dl snap evs ++ s.jailed := by
+  simp only [pstep, h]
+
+theorem evidenceOf_some_mem {s : PSt} {id : Nat} {evs : List Evidence} (h : s.evidenceOf id = some evs) :
+    (id, evs) ∈ s.msgs := by
+  unfold PSt.evidenceOf at h
+  cases hf : s.msgs.find? (fun m => m.1 == id) with
+  | none => simp [hf] at h
+  | some p =>
+    simp only [hf, Option.map_some, Option.some.injEq] at h
+    have hm := List.mem_of_find?_eq_some hf
+    have hp : p.1 = id := by simpa using List.find?_some hf
+    obtain ⟨a, b⟩ := p
+    simp only at h hp
+    subst h; subst hp
+    exact hm
+
+/-- the jailed set is written by a prune op only -/
+theorem pstep_jailed (s : PSt) (op : POp) :
+    (pstep s op).jailed = s.jailed ∨
+    ∃ id dl snap evs, op = .prune id dl snap ∧ s.evidenceOf id = some evs ∧
+      (pstep s op).jailed = pruneOutcome dl snap evs ++ s.jailed := by
+  cases op with
+  | put id => left; simp only [pstep]; split <;> rfl
+  | evidence id e => left; rfl
+  | prune id dl snap =>
+    simp only [pstep]
+    cases h : s.evidenceOf id with
+    | none => left; rfl
+    | some evs => right; exact ⟨id, dl, snap, evs, rfl, h, rfl⟩
+
+/-- once a validator's evidence is on a message it stays there until the message is pruned -/
+theorem pstep_keeps_evidence (s : PSt) (op : POp) (id : Nat) (evs : List Evidence) (v : Nat)
+    (h : s.evidenceOf id = some evs) (hv : v ∈ evs.map (·.1)) (hnd : (s.msgs.map (·.1)).Nodup)
+    (hop : ∀ dl snap, op ≠ .prune id dl snap) :
+    ∃ evs', (pstep s op).evidenceOf id = some evs' ∧ v ∈ evs'.map (·.1) := by
+  have hmem := evidenceOf_some_mem h
+  have hnd' := pstep_ids_nodup s op hnd
+  cases op with
+  | put id' =>
+    have hm' : (id, evs) ∈ (pstep s (.put id')).msgs := by
+      simp only [pstep]; split
+      · exact hmem
+      · exact List.mem_append_left _ hmem
+    exact ⟨evs, evidenceOf_of_mem hnd' hm', hv⟩
+  | evidence id' e =>
+    by_cases hid : id = id'
+    · subst hid
+      have hm' : (id, addEvidence evs e) ∈ (pstep s (.evidence id e)).msgs := by
+        simp only [pstep]
+        exact List.mem_map.mpr ⟨(id, evs), hmem, by simp⟩
+      exact ⟨addEvidence evs e, evidenceOf_of_mem hnd' hm', addEvidence_keeps evs e v hv⟩
+    · have hm' : (id, evs) ∈ (pstep s (.evidence id' e)).msgs := by
+        simp only [pstep]
+        exact List.mem_map.mpr ⟨(id, evs), hmem, by simp [hid]⟩
+      exact ⟨evs, evidenceOf_of_mem hnd' hm', hv⟩
+  | prune id' dl snap =>
+    have hid : id ≠ id' := fun e => hop dl snap (by rw [e])
+    have hm' : (id, evs) ∈ (pstep s (.prune id' dl snap)).msgs := by
+      simp only [pstep]
+      split
+      · exact hmem
+      · exact List.mem_filter.mpr ⟨hmem, by simp [hid]⟩
+    exact ⟨evs, evidenceOf_of_mem hnd' hm', hv⟩
+
+theorem foldl_keeps_evidence (ops : List POp) (id : Nat) (v : Nat) (hop : ∀ op ∈ ops, ∀ dl snap, op ≠ .prune id dl snap) :
+    ∀ (s : PSt) (evs : List Evidence), (s.msgs.map (·.1)).Nodup → s.evidenceOf id = some evs → v ∈ evs.map (·.1) →
+      ∃ evs', (ops.foldl pstep s).evidenceOf id = some evs' ∧ v ∈ evs'.map (·.1) := by
+  induction ops with
+  | nil => intro s evs _ h hv; exact ⟨evs, h, hv⟩
+  | cons op rest ih =>
+    intro s evs hnd h hv
+    obtain ⟨evs1, h1, hv1⟩ := pstep_keeps_evidence s op id evs v h hv hnd (hop op List.mem_cons_self)
+    exact ih (fun o ho => hop o (List.mem_cons_of_mem _ ho)) _ evs1 (pstep_ids_nodup s op hnd) h1 hv1
+
+end Lemmas2
+
+end Paloma.Libcons
+
+/-! ## Property theorems (C13) -/
+
+namespace Paloma.Bridge
+open List
+
+/-- **open_batch_checkpoint_archived.** In every reachable state, the signing bytes of every open batch
+— what the chain is asking validators to sign right now, after a build *or* after a gas-estimate
+re-issue — are in the archive. -/
+theorem open_batch_checkpoint_archived (ops : List Op13) :
+    ∀ b ∈ (run13 ops).batches, b.ckpt ∈ (run13 ops).archive :=
+  openArchived_run13 ops
+
+/-- **archive_grows.** An archived checkpoint is never removed, whatever happens later (re-estimation,
+cancellation, execution of the batch, evidence, key changes, faults). -/
+theorem archive_grows (before after : List Op13) (c : Ckpt) (hc : c ∈ (run13 before).archive) :
+    c ∈ (run13 (before ++ after)).archive := by
+  rw [run13_append]
+  exact archSub_foldl13 after (run13 before) c hc
+
+/-- **issued_checkpoint_archived_forever.** "Issued" defined from the executable state: if `b` is an open
+batch in the state after *some prefix* of the history — at any stage of its life — its checkpoint at
+that moment is archived in every later state. -/
+theorem issued_checkpoint_archived_forever (before after : List Op13) (b : Batch)
+    (hb : b ∈ (run13 before).batches) : b.ckpt ∈ (run13 (before ++ after)).archive :=
+  archive_grows before after b.ckpt (open_batch_checkpoint_archived before b hb)
+
+/-- **archive_written_where_checkpoints_are_issued.** In the current source (regenerated table) the
+two functions that store a batch's signing bytes — the build and the gas-estimate re-issue — both
+archive the checkpoint, and nothing but the archive's own setter / getter touches its store key
+(so an archived checkpoint is never deleted). -/
+theorem archive_written_where_checkpoints_are_issued :
+    (Paloma.Gen.Atomicity.archiveSetters.contains "x/skyway/keeper.Keeper.BuildOutgoingTXBatch" &&
+     Paloma.Gen.Atomicity.archiveSetters.contains "x/skyway/keeper.Keeper.UpdateBatchGasEstimate" &&
+     Paloma.Gen.Atomicity.archiveKeyUsers ==
+       ["x/skyway/keeper.Keeper.GetPastEthSignatureCheckpoint", "x/skyway/keeper.Keeper.SetPastEthSignatureCheckpoint"]) = true := by decide
+
+/-- **genuine_confirmation_safe.** Once a checkpoint has been the signing bytes of an open batch,
+evidence built from a signature over it — by whatever key, submitted by whoever — is refused at every
+later time and changes nothing, whatever happened in between (re-estimation, cancellation, execution of
+the batch, other evidence, key re-registration). -/
+theorem genuine_confirmation_safe (before after : List Op13) (b : Batch) (key : Nat)
+    (hb : b ∈ (run13 before).batches) :
+    evidence (run13 (before ++ after)) b.ckpt key = (run13 (before ++ after), .rejected) := by
+  have := issued_checkpoint_archived_forever before after b hb
+  unfold evidence
+  simp [this]
+
+/-- **jail_provenance.** A validator `v` is in the jailed set only if the history contains an evidence
+op — checkpoint `c`, signature recovering to `key` — such that at that moment (i) `c` was not archived,
+hence (ii) `c` had not been the signing bytes of any batch open in any earlier state of the history
+(it had not been issued so far), and (iii) `key` was the remote key *registered by `v`* in the chain's
+own registry (`lookupKey`, `(v, key) ∈ keys`): the signature is by that validator's registered key. -/
+theorem jail_provenance (ops : List Op13) (v : Nat) (hv : v ∈ (run13 ops).jailed) :
+    ∃ pre c key rest, ops = pre ++ .evidence c key :: rest ∧
+      c ∉ (run13 pre).archive ∧
+      (∀ pre' more b, pre = pre' ++ more → b ∈ (run13 pre').batches → b.ckpt ≠ c) ∧
+      lookupKey (run13 pre).keys key = some v ∧ (v, key) ∈ (run13 pre).keys := by
+  rcases first_appearance apply13 (·.jailed) v ops St.init hv with h | ⟨pre, op, rest, he, hn, hm⟩
+  · simp [St.init] at h
+  · rcases apply13_jailed (pre.foldl apply13 St.init) op with h1 | ⟨c, key, w, hop, hc, hw, h1⟩
+    · rw [h1] at hm; exact absurd hm hn
+    · rw [h1, List.mem_cons] at hm
+      rcases hm with hm | hm
+      · subst hm
+        refine ⟨pre, c, key, rest, by rw [he, hop], hc, ?_, hw, lookupKey_some hw⟩
+        intro pre' more b hpre hb hck
+        apply hc
+        have := issued_checkpoint_archived_forever pre' more b hb
+        rw [← hpre, hck] at this
+        exact this
+      · exact absurd hm hn
+
+/-- **registered_key_unique.** In every reachable state a remote key has at most one holder, so "the
+validator that registered the key" is well defined; and the jailing step looks the holder up. -/
+theorem registered_key_unique (ops : List Op13) (v w key : Nat)
+    (hv : (v, key) ∈ (run13 ops).keys) (hw : (w, key) ∈ (run13 ops).keys) : v = w :=
+  keysUnique_run13 ops (v, key) hv (w, key) hw rfl
+
+/-- **unregistered_key_refused.** A signature by a key nobody registered (or no longer registered: the
+validator rotated it away) jails nobody and changes nothing, whatever the checkpoint. -/
+theorem unregistered_key_refused (s : St) (c : Ckpt) (key : Nat) (h : ∀ v, (v, key) ∉ s.keys) :
+    evidence s c key = (s, .rejected) := by
+  unfold evidence
+  split
+  · rfl
+  · cases hl : lookupKey s.keys key with
+    | none => rfl
+    | some v => exact absurd (lookupKey_some hl) (h v)
+
+/-- **evidence_jails_exactly.** What an accepted piece of evidence does: the holder of the signing key is
+added to the jailed set (if not yet there) and nothing else changes. -/
+theorem evidence_jails_exactly (s : St) (c : Ckpt) (key : Nat) :
+    (evidence s c key).1 = s ∨
+    (c ∉ s.archive ∧ ∃ v, (v, key) ∈ s.keys ∧ (evidence s c key).1 = { s with jailed := v :: s.jailed }) := by
+  rcases evidence_cases s c key with h | ⟨hc, v, hv, _, h⟩
+  · exact Or.inl h
+  · exact Or.inr ⟨hc, v, lookupKey_some hv, h⟩
+
+/-- **never_issued_is_so_far** (the strongest reading of "never issued" is not implementable, and is
+false of the model and of the implementation alike).  The chain cannot know the future: a validator whose
+registered key signed a checkpoint *before* the chain issued it is jailed on evidence (at that time it
+had signed something Paloma had not issued), and a later build may issue exactly that checkpoint.
+`jail_provenance` is therefore stated — at full strength for what any implementation can decide — as
+"not issued in any earlier state of the history". -/
+theorem never_issued_is_so_far :
+    ∃ (pre post : List Op13) (v : Nat) (c : Ckpt),
+      v ∈ (run13 pre).jailed ∧ (∀ b ∈ (run13 pre).batches, b.ckpt ≠ c) ∧ c ∉ (run13 pre).archive ∧
+      ∃ b ∈ (run13 (pre ++ post)).batches, b.ckpt = c :=
+  ⟨[.register 7 70, .evidence (1, 1, 0, 0) 70],
+   [.bridge (.fund 1 1 100), .bridge (.send Fault.none 1 1 10 5), .bridge (.build Fault.none 1 1000)],
+   7, (1, 1, 0, 0), by decide, by decide, by decide, by decide⟩
+
+/-! ### non-vacuity: build, elect an estimate, replay confirmations as evidence, rotate a key -/
+def demo13 : List Op13 :=
+  [ .register 3 33, .register 4 44,
+    .bridge (.fund 1 1 100), .bridge (.send Fault.none 1 1 10 5), .bridge (.build Fault.none 1 1000),
+    .bridge (.endBlock Fault.none 7 1001 [1] [(1, 1, 21000)]) ]
+
+example : (run13 demo13).archive = [(1, 1, 21000, 0), (1, 1, 0, 0)] ∧
+    ((run13 demo13).batches.map Batch.ckpt) = [(1, 1, 21000, 0)] ∧
+    -- the re-issued and the build-time checkpoint are both safe, for the registered key 33 of validator 3
+    (evidence (run13 demo13) (1, 1, 21000, 0) 33).2 = .rejected ∧
+    (evidence (run13 demo13) (1, 1, 0, 0) 33).2 = .rejected ∧
+    -- a forged variant jails the holder of the key, an unregistered key jails nobody
+    (evidence (run13 demo13) (1, 1, 21000, 1) 33).1.jailed = [3] ∧
+    (evidence (run13 demo13) (1, 1, 21000, 1) 99).1.jailed = [] ∧
+    -- validator 3 rotates to key 35: its old key no longer points to it; key 44 cannot be taken over
+    (evidence (run13 (demo13 ++ [.register 3 35])) (1, 1, 21000, 1) 33).1.jailed = [] ∧
+    (evidence (run13 (demo13 ++ [.register 3 35])) (1, 1, 21000, 1) 35).1.jailed = [3] ∧
+    (run13 (demo13 ++ [.register 3 44])).keys = [(3, 33), (4, 44)] := by decide
+
+end Paloma.Bridge
+
+namespace Paloma.Libcons
+
+/-- **prune_spares_attesters.** A validator that supplied evidence is never jailed at prune time. -/
+theorem prune_spares_attesters (s : Snapshot) (evs : List Nat) (v : Nat) (hv : v ∈ evs) :
+    v ∉ pruneJail s evs := by
+  unfold pruneJail
+  split
+  · simp
+  · split
+    · simp
+    · split
+      · simp
+      · intro hm
+        have := (List.mem_filter.mp hm).2
+        simp [hv] at this
+
+/-- **prune_floor_counted.** Nobody is jailed when the votes `VerifyEvidence` counts are below 10 % of
+the snapshot total. -/
+theorem prune_floor_counted (s : Snapshot) (evs : List Nat)
+    (h : 10 * (foundShares s evs).sum < s.total) : pruneJail s evs = [] := by
+  unfold pruneJail tally
+  simp only
+  split
+  · rfl
+  · rename_i votes hs
+    split at hs
+    · cases hs
+    · injection hs with hs
+      subst hs
+      simp [h]
+
+/-- **evidence_suppliers_distinct.** A message never holds two proofs of one validator, whatever the
+submission history (`AddEvidence` replaces). -/
+theorem evidence_suppliers_distinct (subs : List Evidence) : ((evidenceAfter subs).map (·.1)).Nodup :=
+  foldl_addEvidence_nodup subs [] (by simp)
+
+/-- **prune_floor.** Nobody is jailed when fewer than 10 % of the snapshot shares attested — the shares
+of the *distinct* snapshot validators that supplied evidence, each counted once, whatever the
+submission history (re-submissions, several proofs) — for a snapshot that lists every validator once
+(C10 proves that of `createNewSnapshot`). -/
+theorem prune_floor (vs : List (Nat × Nat)) (total : Nat) (subs : List Evidence)
+    (hnd : (vs.map (·.1)).Nodup)
+    (h : 10 * attestedShares ⟨vs, total⟩ ((evidenceAfter subs).map (·.1)) < total) :
+    pruneJail ⟨vs, total⟩ ((evidenceAfter subs).map (·.1)) = [] := by
+  apply prune_floor_counted
+  rw [foundShares_sum_eq vs total hnd _ (evidence_suppliers_distinct subs)]
+  exact h
+
+/-- **prune_floor_of_shares.** The same with the snapshot's total being the sum of its shares (how
+`createNewSnapshot` builds it): fewer than 10 % of the snapshot's shares. -/
+theorem prune_floor_of_shares (vs : List (Nat × Nat)) (subs : List Evidence) (hnd : (vs.map (·.1)).Nodup)
+    (h : 10 * attestedShares ⟨vs, (vs.map (·.2)).sum⟩ ((evidenceAfter subs).map (·.1)) < (vs.map (·.2)).sum) :
+    pruneJail ⟨vs, (vs.map (·.2)).sum⟩ ((evidenceAfter subs).map (·.1)) = [] :=
+  prune_floor vs _ subs hnd h
+
+/-- only snapshot validators are ever jailed at prune time -/
+theorem prune_only_snapshot (s : Snapshot) (evs : List Nat) (v : Nat) (hv : v ∈ pruneJail s evs) :
+    v ∈ s.vals.map (·.1) := by
+  unfold pruneJail at hv
+  split at hv
+  · simp at hv
+  · split at hv
+    · simp at hv
+    · split at hv
+      · simp at hv
+      · exact (List.mem_filter.mp hv).1
+
 /-- **evidence_never_lost.** Whatever the order of submissions and however often validators re-submit
 (same or different proof), every validator that ever supplied evidence for a message is in the
 message's evidence list. -/
@@ -405,10 +897,84 @@ theorem prune_spares_every_submitter (s : Snapshot) (subs : List Evidence) (v : 
     v ∉ pruneJail s ((evidenceAfter subs).map (·.1)) :=
   prune_spares_attesters s _ v (evidence_never_lost subs v hv)
 
+/-- **prune_jail_provenance** (queue machine).  Over every history of puts, evidence submissions and
+prunes on any number of messages: a validator is in the jailed set only because some prune op of the
+history, of a message with a delivery / error report whose evidence `evs` did not reach consensus,
+found it in the snapshot of that moment, *not* among the suppliers of the evidence the message held, and
+the suppliers' counted votes were at least 10 % of that snapshot's total. -/
+theorem prune_jail_provenance (ops : List POp) (v : Nat) (hv : v ∈ (prun ops).jailed) :
+    ∃ pre id snap rest evs, ops = pre ++ .prune id true snap :: rest ∧
+      (prun pre).evidenceOf id = some evs ∧ verifyEvidence snap evs = .notAchieved ∧
+      v ∈ snap.vals.map (·.1) ∧ v ∉ evs.map (·.1) ∧
+      ¬ (10 * (foundShares snap (evs.map (·.1))).sum < snap.total) := by
+  rcases Paloma.Bridge.first_appearance pstep (·.jailed) v ops PSt.init hv with h | ⟨pre, op, rest, he, hn, hm⟩
+  · simp [PSt.init] at h
+  · rcases pstep_jailed (pre.foldl pstep PSt.init) op with h1 | ⟨id, dl, snap, evs, hop, hev, h1⟩
+    · rw [h1] at hm; exact absurd hm hn
+    · rw [h1, List.mem_append] at hm
+      rcases hm with hm | hm
+      · unfold pruneOutcome at hm
+        cases dl with
+        | false => simp at hm
+        | true =>
+          simp only [Bool.not_true, Bool.false_eq_true, if_false] at hm
+          cases hver : verifyEvidence snap evs with
+          | winnerIn ws => simp [hver] at hm
+          | notAchieved =>
+            simp only [hver] at hm
+            refine ⟨pre, id, snap, rest, evs, by rw [he, hop], hev, hver, prune_only_snapshot _ _ _ hm, ?_, ?_⟩
+            · intro hin
+              exact prune_spares_attesters snap _ v hin hm
+            · intro hlt
+              rw [prune_floor_counted snap _ hlt] at hm
+              cases hm
+      · exact absurd hm hn
+
+/-- **supplier_never_jailed_by_its_message** (queue machine, third clause).  If validator `v` supplied
+evidence for message `id` (the message being in the queue at that moment) and the message is pruned
+later — any number of other submissions, other messages and other prunes in between — then `v` is not
+among the validators that prune jails. -/
+theorem supplier_never_jailed_by_its_message (pre mid : List POp) (id : Nat) (e : Evidence)
+    (dl : Bool) (snap : Snapshot)
+    (hq : ((prun pre).evidenceOf id).isSome)
+    (hmid : ∀ op ∈ mid, ∀ dl' snap', op ≠ .prune id dl' snap') :
+    ∃ evs, (prun (pre ++ .evidence id e :: mid)).evidenceOf id = some evs ∧
+      (prun (pre ++ .evidence id e :: mid ++ [.prune id dl snap])).jailed =
+        pruneOutcome dl snap evs ++ (prun (pre ++ .evidence id e :: mid)).jailed ∧
+      e.1 ∉ pruneOutcome dl snap evs := by
+  obtain ⟨evs0, h0⟩ := Option.isSome_iff_exists.mp hq
+  -- after the submission the message holds `e.1`
+  have hnd := prun_ids_nodup pre
+  have hm1 : (id, addEvidence evs0 e) ∈ (pstep (prun pre) (.evidence id e)).msgs := by
+    simp only [pstep]
+    exact List.mem_map.mpr ⟨(id, evs0), evidenceOf_some_mem h0, by simp⟩
+  have h1 := evidenceOf_of_mem (pstep_ids_nodup _ (.evidence id e) hnd) hm1
+  obtain ⟨evs, h2, hv⟩ := foldl_keeps_evidence mid id e.1 hmid _ _ (pstep_ids_nodup _ (.evidence id e) hnd) h1
+    (addEvidence_adds evs0 e)
+  have hrun : prun (pre ++ .evidence id e :: mid) = mid.foldl pstep (pstep (prun pre) (.evidence id e)) := by
+    unfold prun; rw [List.foldl_append]; rfl
+  refine ⟨evs, by rw [hrun]; exact h2, ?_, ?_⟩
+  · rw [prun_snoc, hrun]
+    exact pstep_prune_some _ id dl snap evs h2
+  · unfold pruneOutcome
+    split
+    · simp
+    · split
+      · simp
+      · exact prune_spares_attesters snap _ e.1 hv
+
+/-! ### non-vacuity -/
 example : pruneJail ⟨[(1,5),(2,5),(3,5)], 15⟩ [1] = [2, 3] := by decide
 example : pruneJail ⟨[(1,1),(2,7),(3,7)], 15⟩ [1] = [] := by decide
 -- validator 1 submits, 2 and 3 follow, 1 re-submits another proof: all three stay on record, only 4 is jailed
 example : evidenceAfter [(1, 7), (2, 8), (3, 9), (1, 5)] = [(1, 5), (2, 8), (3, 9)] ∧
     pruneJail ⟨[(1,5),(2,5),(3,5),(4,5)], 20⟩ ((evidenceAfter [(1, 7), (2, 8), (3, 9), (1, 5)]).map (·.1)) = [4] := by decide
+-- the 10 % floor counts every supplier once: validator 1 (1 of 20 shares = 5 %) submitting twice jails nobody
+example : pruneJail ⟨[(1,1),(2,19)], 20⟩ ((evidenceAfter [(1, 7), (1, 8)]).map (·.1)) = [] ∧
+    attestedShares ⟨[(1,1),(2,19)], 20⟩ ((evidenceAfter [(1, 7), (1, 8)]).map (·.1)) = 1 := by decide
+-- the queue machine: two messages; validator 1 supplies evidence for message 7 only; message 8 is pruned
+-- undelivered (nobody jailed), message 7 delivered and contested (2 and 3 jailed, 1 spared)
+example : (prun [.put 7, .put 8, .evidence 7 (1, 5), .prune 8 false ⟨[(1,5),(2,5),(3,5)], 15⟩,
+                 .evidence 7 (1, 6), .prune 7 true ⟨[(1,5),(2,5),(3,5)], 15⟩]).jailed = [2, 3] := by decide
 
 end Paloma.Libcons
